@@ -97,11 +97,14 @@ theorem neutral_startOf (v : Val) : Neutral (startOf v) := by
 theorem neutral_lookupVar (C : Ctx) (x : String) : Neutral (lookupVar C x) := by
   unfold lookupVar
   apply neutral_bind neutral_getFr; intro fr
-  split
-  · exact neutral_pure _
-  · split
+  cases selfHit fr x
+  · simp only [Bool.false_eq_true, if_false]
+    split
     · exact neutral_pure _
-    · exact neutral_fail _
+    · split
+      · exact neutral_pure _
+      · exact neutral_fail _
+  · exact neutral_pure _
 
 
 /-- inversion of a successful bind -/
